@@ -157,7 +157,7 @@ func (t Time) Add(input Quantity) (Time, error) {
 		return Time{}, err
 	}
 	duration = roundToTimePrecision(timeMap[t.l], duration)
-	return Time{t.time.Add(duration), t.l}, nil
+	return Time{wrapToReferenceDay(t.time.Add(duration)), t.l}, nil
 }
 
 // Sub returns the result of the time-valued quantity subtracted from t.
@@ -168,7 +168,14 @@ func (t Time) Sub(input Quantity) (Time, error) {
 		return Time{}, err
 	}
 	duration = roundToTimePrecision(timeMap[t.l], duration)
-	return Time{t.time.Add(-duration), t.l}, nil
+	return Time{wrapToReferenceDay(t.time.Add(-duration)), t.l}, nil
+}
+
+// wrapToReferenceDay returns the same time of day on the reference day
+// (0000-01-01 UTC) that ParseTime and TimeFromProto anchor Times on, so that a
+// Time that crossed midnight still compares by its time of day.
+func wrapToReferenceDay(t time.Time) time.Time {
+	return time.Date(0, time.January, 1, t.Hour(), t.Minute(), t.Second(), t.Nanosecond(), time.UTC)
 }
 
 // roundToTimePrecision is used to round down to the highest precision of
